@@ -1,6 +1,7 @@
 """Position provenance rules (C13): Token arithmetic (R13.b), node positions (R13.c), regex
 offsets (R13.d)."""
 import ast
+from .interp import strip_doc
 
 from .model import AnalysisError, Unfoldable, norm
 from .core import RuleResult, Finding
@@ -175,21 +176,77 @@ def r13_b(ctx):
             if not ok:
                 fail(fd, c, 'Token.%s must return the stripped text with position + offset of the stripped text in the '
                      'original' % name)
-    # constructor copies the position of a Token argument
+    # constructor copies the position of a Token argument: the value stored in `self.position` is evaluated for the
+    # two cases "the text argument is a Token" / "it is a plain string"
     fd = method('__new__')
-    ok = False
-    for n in ast.walk(fd.node):
-        if isinstance(n, ast.If) and 'isinstance(text, Token)' in norm(n.test):
-            ok = any(isinstance(s, ast.Assign) and norm(s.targets[0]) == 'self.position' and norm(s.value) == 'text.position'
-                     for s in n.body) and any(isinstance(s, ast.Assign) and norm(s.targets[0]) == 'self.position'
-                                              and norm(s.value) == 'position' for s in n.orelse)
-    if not ok and not any(isinstance(n, ast.If) and 'isinstance(text, Token)' in norm(n.test) and any(
-            isinstance(s_, ast.Assign) and norm(s_.targets[0]) == 'self.position' for s_ in n.body + n.orelse) for n in ast.walk(fd.node)):
-        raise AnalysisError('Token.__new__: the position is not assigned in the two arms of `isinstance(text, Token)`: shape not '
-                            'recognised by R13.b')
+    nps = fd.params()
+    text_p = nps[1] if len(nps) > 1 else 'text'
+    pos_p = 'position' if 'position' in nps else (nps[2] if len(nps) > 2 else None)
+    is_tok_tests = ('isinstance(%s, Token)' % text_p, "hasattr(%s, 'position')" % text_p)
+
+    class _Truth(Exception):
+        pass
+
+    def pos_eval(e, is_token):
+        """-> 'TOKEN' (the argument's own position), 'PARAM' (the position parameter), or raises"""
+        if isinstance(e, ast.Attribute) and e.attr == 'position' and norm(e.value) == text_p:
+            if not is_token:
+                raise AnalysisError('Token.__new__ reads %s.position of a plain string' % text_p)
+            return 'TOKEN'
+        if isinstance(e, ast.Name) and e.id == pos_p:
+            return 'PARAM'
+        if isinstance(e, ast.Call) and isinstance(e.func, ast.Name) and e.func.id == 'getattr' and len(e.args) == 3 \
+                and norm(e.args[0]) == text_p and isinstance(e.args[1], ast.Constant) and e.args[1].value == 'position':
+            return 'TOKEN' if is_token else pos_eval(e.args[2], is_token)
+        if isinstance(e, ast.IfExp):
+            t = norm(e.test)
+            if t in is_tok_tests:
+                return pos_eval(e.body if is_token else e.orelse, is_token)
+            if t in tuple('not ' + x for x in is_tok_tests):
+                return pos_eval(e.orelse if is_token else e.body, is_token)
+            raise _Truth(norm(e.test))
+        if isinstance(e, ast.BoolOp):
+            raise _Truth(norm(e))
+        if isinstance(e, ast.Constant) and e.value is None:
+            return 'NONE'
+        raise AnalysisError('Token.__new__: position expression %s not recognised by R13.b' % norm(e)[:60])
+
+    def stores(stmts, is_token, acc):
+        for s_ in stmts:
+            if isinstance(s_, ast.If):
+                t = norm(s_.test)
+                if t in is_tok_tests:
+                    stores(s_.body if is_token else s_.orelse, is_token, acc)
+                elif t in tuple('not ' + x for x in is_tok_tests):
+                    stores(s_.orelse if is_token else s_.body, is_token, acc)
+                else:
+                    a1, a2 = list(acc), list(acc)
+                    stores(s_.body, is_token, a1)
+                    stores(s_.orelse, is_token, a2)
+                    if a1 != a2:
+                        if any(isinstance(x, ast.Assign) and norm(x.targets[0]) == 'self.position' for x in ast.walk(s_)):
+                            raise _Truth(t)
+                    acc[:] = a1
+            elif isinstance(s_, ast.Assign) and any(norm(t_) == 'self.position' for t_ in s_.targets):
+                acc.append(pos_eval(s_.value, is_token))
+    ok = True
+    why = ''
+    try:
+        got = {}
+        for case in (True, False):
+            acc = []
+            stores(strip_doc(fd.node.body), case, acc)
+            if not acc:
+                raise AnalysisError('Token.__new__: no store to self.position found: shape not recognised by R13.b')
+            got[case] = acc[-1]
+        ok = got[True] == 'TOKEN' and got[False] == 'PARAM'
+        why = 'position of a Token argument -> %s, of a plain string -> %s' % (got[True], got[False])
+    except _Truth as e_:
+        ok = False
+        why = 'the stored position depends on the truth value of `%s` (offset 0 is falsy)' % str(e_)[:60]
     rr.ob(ok, {'method': '__new__', 'copies_position_of_token_argument': ok})
     if not ok:
-        fail(fd, fd.node.name, 'Token(...) must take the position of a Token argument and the given position otherwise')
+        fail(fd, fd.node.name, 'Token(...) must take the position of a Token argument and the given position otherwise: ' + why)
     return rr
 
 
@@ -445,6 +502,66 @@ def r13_g(ctx):
                             'position stored in its expression', line=g.node.lineno))
     else:
         raise AnalysisError('TexNode.position is no longer a property')
+    return rr
+
+
+def _is_position_value(e):
+    """an expression that denotes a source offset: `<x>.position`, the name `position`, `getattr(<x>, 'position'[, d])`"""
+    if isinstance(e, ast.Attribute) and e.attr == 'position':
+        return True
+    if isinstance(e, ast.Name) and e.id == 'position':
+        return True
+    if isinstance(e, ast.Call) and isinstance(e.func, ast.Name) and e.func.id == 'getattr' and len(e.args) >= 2 \
+            and isinstance(e.args[1], ast.Constant) and e.args[1].value == 'position':
+        return True
+    return False
+
+
+def r13_i(ctx):
+    """no offset is chosen by its truth value"""
+    repo = ctx.repo
+    rr = RuleResult('R13.i', 'a source offset is never tested for truth: `position or default`, `if position:`, '
+                    '`x.position and ...` treat the valid offset 0 (the first character of the document) as "no position"',
+                    floor=10)
+    n_values = 0
+    for mname in ('utils', 'tokens', 'reader', 'data', 'tex', 'category'):
+        m = repo.modules.get(mname)
+        if m is None:
+            continue
+        fns = list(m.functions.values()) + [fd for c in m.classes.values() for fds in c.methods.values() for fd in fds]
+        for fd in fns:
+            for n in ast.walk(fd.node):
+                if _is_position_value(n):
+                    n_values += 1
+                tested = []
+                if isinstance(n, ast.BoolOp):
+                    tested += list(n.values[:-1])
+                    # the last operand of a condition is tested too when the whole expression is a test
+                if isinstance(n, (ast.If, ast.While, ast.IfExp, ast.Assert)):
+                    t = n.test
+                    stack = [t]
+                    while stack:
+                        x = stack.pop()
+                        if isinstance(x, ast.BoolOp):
+                            stack += list(x.values)
+                        elif isinstance(x, ast.UnaryOp) and isinstance(x.op, ast.Not):
+                            stack.append(x.operand)
+                        else:
+                            tested.append(x)
+                if isinstance(n, ast.UnaryOp) and isinstance(n.op, ast.Not):
+                    tested.append(n.operand)
+                if isinstance(n, ast.comprehension):
+                    tested += list(n.ifs)
+                for x in tested:
+                    if _is_position_value(x):
+                        rr.ob(False)
+                        rr.fail(Finding('R13.i', mname, fd.qual, n if not isinstance(n, (ast.If, ast.While)) else n.test,
+                                        'the offset `%s` is tested for truth: offset 0 -- the first character of the '
+                                        'document -- counts as "no position" and is replaced or skipped' % norm(x)[:60],
+                                        line=getattr(x, 'lineno', fd.node.lineno)))
+    rr.instances += n_values
+    rr.discharged += n_values
+    rr.samples.append({'offset_valued_expressions_scanned': n_values})
     return rr
 
 
